@@ -10,7 +10,7 @@ from kv.gen import store
 from kv.rig import *  # noqa
 
 E = enums
-IDENTS = [('alice', None), ('bob', None), ('alice', ['g1']), ('carol', [])]
+IDENTS = [('alice', None), ('bob', None), ('alice', ['g1']), ('carol', []), ('bob', ['ops']), ('bob', ['dev']), ('alice', ['dev'])]
 FIXED_KEY = bytes(range(16))
 
 
@@ -34,13 +34,14 @@ def cases(tier, seed):
 
 LAST_KINDS = ['create', 'register', 'create_key_pair', 'derive_key', 'batch_create_get',
               'fail_notfound', 'fail_denied', 'v10', 'v20', 'v14_sensitive', 'req_error_async',
-              'req_error_version', 'req_error_stale', 'locate', 'get', 'destroy_created', 'random']
+              'req_error_version', 'req_error_stale', 'locate', 'get', 'destroy_created', 'random',
+              'unsupported_version', 'get_group_object', 'get_group_object']
 
 PROBES = ['get', 'get_attributes', 'get_attribute_list', 'activate', 'revoke', 'destroy',
           'encrypt', 'decrypt', 'mac', 'sign', 'signature_verify', 'modify_attribute',
           'delete_attribute', 'set_attribute', 'get_wrapped',
           'uid_get_attributes', 'uid_get_attribute_list', 'locate', 'query', 'discover',
-          'register_fixed', 'uid_modify_sensitive', 'derive_none']
+          'register_fixed', 'uid_modify_sensitive', 'derive_none', 'uid_get_group_object', 'uid_get_group_object']
 
 
 def last_request(kind, rng, srv, objs):
@@ -85,6 +86,15 @@ def last_request(kind, rng, srv, objs):
     elif kind == 'req_error_stale':
         ops = [op_create()]
         kw['time_stamp'] = 1000
+    elif kind == 'unsupported_version':
+        # only a request without batch items gets past the decoder under an unsupported version
+        ops = []
+        v = rng.choice(((3, 0), (1, 9), (0, 9)))
+        kw['raw_version'] = v
+        v = (1, 2)
+    elif kind == 'get_group_object':
+        g = [o for o in objs if o.policy == 'grouped']
+        ops = [op_get(rng.choice(g).uid if g else '1')]
     elif kind == 'locate':
         ops = [op_locate()]
     elif kind == 'get':
@@ -157,6 +167,9 @@ def probe_request(name, rng, objs, version):
         if version >= (2, 0):
             return [op_modify_attribute_20(uid, A.SENSITIVE, True)]
         return [op_modify_attribute_1x(uid, rig.attr(A.SENSITIVE, True))]
+    if name == 'uid_get_group_object':
+        g = [o for o in objs if o.policy == 'grouped']
+        return [op_get(rng.choice(g).uid if g else uid)]
     if name == 'derive_none':
         return [op_derive_key([], attributes_list=sym_attrs(length=128, masks=ALL_MASKS))]
     raise ValueError(name)
@@ -166,9 +179,17 @@ def run_case(ctx, case):
     rng = ctx.rng()
     clock = rig.install_clock(rig.VClock(step=0))
     with rig.scratch_dir() as d:
-        srv = rig.Server(d + '/db.sqlite')
+        pols = rig.default_policies()
+        gsec = {t: {op: enums.Policy.ALLOW_ALL for op in ops_} for t, ops_ in pols['default']['preset'].items()}
+        pols['grouped'] = {'groups': {'ops': gsec}, 'preset': pols['default']['preset']}
+        srv = rig.Server(d + '/db.sqlite', policies=pols)
         try:
             objs = store.populate(srv, rng, n=8)
+            for gi in range(2):
+                go = store.register(srv, 'sym', 'alice', rng, policy='grouped', state='active', names=['grouped-%d' % gi])
+                if go:
+                    objs.append(go)
+            last_raw_version = [None]
             for rnd in range(18):
                 # some random prefix traffic
                 for _ in range(rng.randrange(0, 4)):
@@ -183,8 +204,13 @@ def run_case(ctx, case):
                     clock.advance(1)
                 kind = LAST_KINDS[(rnd + case['hist']) % len(LAST_KINDS)]
                 ops, lident, lv, kw = last_request(kind, rng, srv, objs)
+                raw_v = kw.pop('raw_version', None)
                 try:
-                    lr = srv.send(ops, lident, lv, **kw)
+                    if raw_v is not None:
+                        from kv.checks.c16 import with_version
+                        lr = srv.send_bytes(with_version(rig.encode_request(rig.build_request(lv, ops), lv), raw_v), lident, strict_decode=False)
+                    else:
+                        lr = srv.send(ops, lident, lv, **kw)
                 except Exception:
                     ctx.count('last_request_not_encodable')
                     continue
@@ -199,6 +225,11 @@ def run_case(ctx, case):
                     try:
                         preq = rig.encode_request(rig.build_request(pv, probe_request(pname, rng, objs, pv)), pv)
                         rig.decode_request(preq)
+                        if raw_v is not None and rng.random() < 0.7:
+                            from kv.checks.c16 import with_version
+                            # the same unsupported version again (an empty batch, the only shape the decoder lets through)
+                            preq = with_version(rig.encode_request(rig.build_request(pv, []), pv), raw_v)
+                            ctx.count('probes_in_unsupported_version')
                     except Exception:
                         ctx.count('probe_not_encodable')
                         continue
@@ -207,12 +238,12 @@ def run_case(ctx, case):
                     t = clock.now
                     twin = rig.Server(twin_path, policies=srv.policies)
                     try:
-                        rt = twin.send_bytes(preq, pident)
+                        rt = twin.send_bytes(preq, pident, strict_decode=False)
                         dump_t = twin.dump()
                     finally:
                         twin.close()
                     clock.now = t
-                    rl = srv.send_bytes(preq, pident)
+                    rl = srv.send_bytes(preq, pident, strict_decode=False)
                     dump_l = srv.dump()
                     clock.now = t + 1
                     ctx.ev()
